@@ -105,7 +105,7 @@ def run_shard(spec, acc):
                                       dev_class=rng.choice([25, 60])) for _ in range(2)] for s in sources}
         # NAMEs of every kind: sub-fields at their 'not available' codes, random bits
         for s_ in sources:
-            claims[s_] = claims[s_] + [hist.pick_name(rng)]
+            claims[s_] = claims[s_] + [hist.pick_name(rng)] + ([hist.refused_name(rng)] if s_ == sources[0] else [])
         # two addresses sometimes claim the same NAME (a device that moved to another address)
         if c % 2 == 0:
             shared_name = hist.claim_name(hist.pick_unique_number(rng), rng.choice([1851, 1855, 137, 229]))
